@@ -1,4 +1,5 @@
 import AmrK.Scan
+import AmrK.IterLevel
 /-! # C15 — level iteration yields every box exactly once, whatever the schedule -/
 namespace C15
 open Py Taste Reader ReaderR Scan
@@ -19,5 +20,15 @@ theorem scan_count (nf f : Nat) (hf : f < nf) (eps : List (Entry × Bytes)) (fue
   have := scan_fileOf nf f hf eps [] fuel hfuel hg
   simp only [List.nil_append, List.length_nil] at this
   rw [this, List.length_map]
+
+/-- **Iterating over a level yields every box of the level exactly once and then stops**: however
+    the level's boxes are distributed over the binary files (`boxes` is a permutation of the
+    concatenated file contents), the chained per-file scans return a permutation of the boxes'
+    selected blocks (a finite list) -/
+theorem level_iteration_perm (nf f : Nat) (hf : f < nf) (parts : List (List (Entry × Bytes)))
+    (boxes : List (Entry × Bytes)) (hp : boxes.Perm parts.flatten)
+    (hg : ∀ eps ∈ parts, ∀ p ∈ eps, GoodFab nf p) :
+    (iterLevel (parts.map (fileOf nf)) f).Perm (boxes.map fun p => block p.2 (cellsOf p.1) f) :=
+  iterLevel_perm nf f hf parts boxes hp hg
 
 end C15
